@@ -147,10 +147,28 @@ def runCase (s : St) : String :=
   let canon := (e0.filter fun e => decide (e.attrs = flagsOf s.os e.name e.attrsStr)).length
   let stripok := (s.acts.filter fun (_, _, a) => stripSexpFields a.sexpFields == a.sexpPlain).length
   let actok := (s.acts.filter fun (_, _, a) => actOKGb a).length
+  -- field names that are not snake_case: a rendering with a `X: (` whose word has a digit or an upper-case letter, and the
+  -- tests whose expectation for such a rendering is written WITHOUT field names (compared through strip_sexp_fields)
+  let oddField (sx : Str) : Bool :=
+    let rec go (cs : Str) (word : Str) (fuel : Nat) : Bool :=
+      match fuel, cs with
+      | 0, _ => false
+      | _, [] => false
+      | fuel + 1, c :: rest =>
+        if c == ':' && rest.take 2 == [' ', '('] then
+          (word.any fun x => x.isDigit || x.isUpper) || go rest [] fuel
+        else if c.isAlphanum || c == '_' then go rest (word ++ [c]) fuel
+        else go rest [] fuel
+    go sx [] (sx.length + 1)
+  let oddActs := (s.acts.filter fun (_, _, a) => !a.hasError && oddField a.sexpFields).length
+  let oddPlainTests := (e0.filter fun e => !e.attrs.cst && !e.hasFields && e.attrs.expect == .pass &&
+      (e.attrs.languages.take 1).any fun l => match orc l e.input with
+        | some a => !a.hasError && oddField a.sexpFields
+        | none => false).length
   let shape := (e0.filter entryShapeB).length
   let expect := (e0.filter entryExpectB).length
   let model := if c1 == "ok" then "" else s!" model1={hexOf u1}"
-  s!"{s.id} parse0={p0} parse1={p1} upd1={c1} upd2={c2} res1={r1} res2={r2} bupd1={bu1} bupd2={bu2} bjudge={bj} dir={if s.dir then 1 else 0} judge={j} n0={e0.length} n1={e1.length} attrs={attrs} wrong={wrong} delimlike={delimLike} suffixed={if (firstSuffix (splitIncl s.orig)).isSome then 1 else 0} wrote={if s.wrote1 then 1 else 0} filter={s.filter} carried={(e0.filter fun e => !flt e.name).length} carriedcst={(e0.filter fun e => !flt e.name && e.attrs.cst).length} wf={if wf then 1 else 0} canonf={if canonF then 1 else 0} simples={if simplesF then 1 else 0} nearall={nearAll} nearws={nearWs} stripok={stripok} canon={canon} shape={shape} expectok={expect} acts={s.acts.length} actok={actok} sx={sexps.length} sxclass={sxIn} quoted={if quoted then 1 else 0} crlf={if s.orig.contains '\r' then 1 else 0} bytes={s.orig.length}{model}"
+  s!"{s.id} parse0={p0} parse1={p1} upd1={c1} upd2={c2} res1={r1} res2={r2} bupd1={bu1} bupd2={bu2} bjudge={bj} dir={if s.dir then 1 else 0} judge={j} n0={e0.length} n1={e1.length} attrs={attrs} wrong={wrong} delimlike={delimLike} suffixed={if (firstSuffix (splitIncl s.orig)).isSome then 1 else 0} wrote={if s.wrote1 then 1 else 0} filter={s.filter} carried={(e0.filter fun e => !flt e.name).length} carriedcst={(e0.filter fun e => !flt e.name && e.attrs.cst).length} wf={if wf then 1 else 0} canonf={if canonF then 1 else 0} simples={if simplesF then 1 else 0} nearall={nearAll} nearws={nearWs} oddacts={oddActs} oddplain={oddPlainTests} stripok={stripok} canon={canon} shape={shape} expectok={expect} acts={s.acts.length} actok={actok} sx={sexps.length} sxclass={sxIn} quoted={if quoted then 1 else 0} crlf={if s.orig.contains '\r' then 1 else 0} bytes={s.orig.length}{model}"
 
 def step (s : St) (line : String) : IO St := do
   match line.splitOn " " with
